@@ -27,6 +27,14 @@ def unit_copy_use(twin=False):
                     wr[key[1]] = v
             flags = [k for k, v in wr.items() if not k.startswith("n_") and tm.isnum(v) and v.args[0] == 1]
             copies = [e for e in s.events if e.name.split("::")[-1].startswith("Rxn_copy")]
+            # a reactant is copied to the scratch number exactly when it is in use
+            ins = [e for e in s.events if e.name.split("::")[-1].startswith("Get_") and e.name.endswith("_in")]
+            if ins:
+                kname = ins[0].name.split("::")[-1][4:-3]
+                in_use = tm.eq(tm.to_int(ins[0].result) if hasattr(tm, "to_int") and ins[0].result.sort == "B" else ins[0].result, tm.num(1, "I")) if ins[0].result.sort != "B" else tm.to_bool(ins[0].result)
+                if twin and kname == "exchange":
+                    in_use = tm.not_(in_use)
+                U.discharge_valid(r, "%s.%s" % (kname, "copied_only_when_in_use" if copies else "left_alone_only_when_not_in_use"), list(s.pc), in_use if copies else tm.not_(in_use))
             if not flags:
                 # not taking part: nothing but `save.K = FALSE` may be written, nothing copied... or a kind without save slot (mix, temperature, pressure, solution)
                 if copies:
